@@ -96,7 +96,7 @@ func (c *Chooser) ChooseFunc(n int, label string, gen func(r *Rand) int) int {
 	} else {
 		v = c.R.Intn(n)
 	}
-	c.Tape = append(c.Tape, uint32(v))
+	c.Tape = AppendNR(c.Tape, uint32(v))
 	return v
 }
 
